@@ -32,6 +32,10 @@ CONSTANTS
   ProtoInsts, ProtoSpells, ProtoLocIds, MaxDepth,
   EmitOn
 
+AllPlacements == Placements
+\* the traversal as pinned: set_base_dir(model.graph) only - function bodies are not visited
+PinnedReach == Placements \ {"function-node-attribute", "function-subgraph-initializer"}
+
 R == <<"R">>
 B == <<"R", "base">>
 P(n) == B \o <<n>>
@@ -41,6 +45,7 @@ CommonFS == <<
   File(P("in.bin"), 1), File(<<"R", "base", "sub", "in2.bin">>, 2),
   File(<<"R", "baseX", "in.bin">>, 3), File(<<"R", "out", "secret">>, 4),
   File(P("m.onnx"), 9),
+  File(<<"R", "top">>, 5),   \* a file in the parent of base: reached by "<directory link that leaves base>/../top"
   Link(<<"R", "lbase">>, <<"base">>) >>
 
 \* instance variants (entries added to CommonFS) and the units they add to the alphabet
@@ -65,7 +70,7 @@ VariantUnits == <<
   <<>>, <<"lf_in", "lf_out">>, <<"lf_in", "lf_out">>, <<"ld_in", "ld_out">>, <<"hl", "hl_in">>,
   <<"lf2", "lf_hl", "ld_X">>, <<"ld_up", "ld_abs">> >>
 CommonUnits == <<"", ".", "..", "in.bin", "sub", "in2.bin", "base", "baseX", "out", "secret",
-                 "lbase", "nx", "ABS">>
+                 "lbase", "nx", "top", "ABS">>
 
 MCEntries == [i \in DOMAIN Variant |-> CommonFS \o Variant[i]]
 MCInstFS  == [i \in DOMAIN Variant |->
@@ -142,7 +147,7 @@ NextEnum == \E n \in DOMAIN UnitSeq[inst] : Extend(UnitSeq[inst][n])
 FailClosed        == \A n \in DOMAIN cases : cases[n].fc
 NoOverRejectPlain == \A n \in DOMAIN cases : cases[n].norp
 NoOverReject      == \A n \in DOMAIN cases : cases[n].nor
-LoadBase          == Spell[sp].route = "load" => LoadBaseAt(FS, Cwd, Spell[sp].mp)
+LoadBase          == Spell[sp].route = "load" => LoadBaseEverywhereAt(FS, Cwd, Spell[sp].mp)
 \* sanity of the model itself: whenever the kernel resolves the joined path, realpath names the
 \* same object (the check looks at the file that open() will reach)
 RealpathAgreesWithKernel ==
